@@ -158,27 +158,27 @@ macro_rules! h {
     };
 }
 
-//@ obl: id=U12.catch.protocol.n0 harness=u12_catch_protocol_n0 props=C15,C02 tier=quick kind=bounded
+//@ obl: id=U12.catch.protocol.n0 harness=u12_catch_protocol_n0 props=C15,C02,C03 tier=quick kind=bounded
 //@ fns: CatchGradualDifficulty::next, CatchGradualDifficulty::nth, CatchGradualDifficulty::len, CatchGradualDifficulty::size_hint, CatchDifficultyAttributes::add_object_count, ObjectCountBuilder::{record_fruit,record_droplet,record_tiny_droplets,into_gradual}
 //@ bound: bounded: N = 0 palpable objects; idx and nth argument k range over all usize
 //@ clause: C15 (a) len()==remaining, size_hint()==(remaining,Some(remaining)); (b) next() Some iff remaining>0, then idx'=idx+1, else unchanged; (c) nth(k) Some iff k<remaining, consumes min(k+1,remaining); (d) invariant preserved, no overflow / index panic; after i values fruits/droplets/tiny droplets are those of the first i palpable objects
 h!(u12_catch_protocol_n0, step_protocol, 0);
-//@ obl: id=U12.catch.protocol.n1 harness=u12_catch_protocol_n1 props=C15,C02 tier=quick kind=bounded
+//@ obl: id=U12.catch.protocol.n1 harness=u12_catch_protocol_n1 props=C15,C02,C03 tier=quick kind=bounded
 //@ fns: CatchGradualDifficulty::next, CatchGradualDifficulty::nth, CatchGradualDifficulty::len, CatchGradualDifficulty::size_hint
 //@ bound: bounded: N = 1; idx, k all usize
 //@ clause: as U12.catch.protocol.n0
 h!(u12_catch_protocol_n1, step_protocol, 1);
-//@ obl: id=U12.catch.protocol.n2 harness=u12_catch_protocol_n2 props=C15,C02 tier=quick kind=bounded
+//@ obl: id=U12.catch.protocol.n2 harness=u12_catch_protocol_n2 props=C15,C02,C03 tier=quick kind=bounded
 //@ fns: CatchGradualDifficulty::next, CatchGradualDifficulty::nth, CatchGradualDifficulty::len, CatchGradualDifficulty::size_hint
 //@ bound: bounded: N = 2; idx, k all usize
 //@ clause: as U12.catch.protocol.n0
 h!(u12_catch_protocol_n2, step_protocol, 2);
-//@ obl: id=U12.catch.protocol.n3 harness=u12_catch_protocol_n3 props=C15,C02 tier=quick kind=bounded
+//@ obl: id=U12.catch.protocol.n3 harness=u12_catch_protocol_n3 props=C15,C02,C03 tier=quick kind=bounded
 //@ fns: CatchGradualDifficulty::next, CatchGradualDifficulty::nth, CatchGradualDifficulty::len, CatchGradualDifficulty::size_hint
 //@ bound: bounded: N = 3; idx, k all usize
 //@ clause: as U12.catch.protocol.n0
 h!(u12_catch_protocol_n3, step_protocol, 3);
-//@ obl: id=U12.catch.protocol.n4 harness=u12_catch_protocol_n4 props=C15,C02 tier=thorough kind=bounded budget=3000
+//@ obl: id=U12.catch.protocol.n4 harness=u12_catch_protocol_n4 props=C15,C02,C03 tier=thorough kind=bounded budget=3000
 //@ fns: CatchGradualDifficulty::next, CatchGradualDifficulty::nth, CatchGradualDifficulty::len, CatchGradualDifficulty::size_hint
 //@ bound: bounded: N = 4; idx, k all usize
 //@ clause: as U12.catch.protocol.n0
@@ -344,13 +344,32 @@ fn rec_convert_objects(
     Vec::new()
 }
 
-//@ obl: id=U12.catch.convert_args harness=u12_catch_convert_args stubs=yes props=C02 tier=quick kind=proof
+static mut CD_CALLS: u32 = 0;
+static mut CD_ARGS: [(u64, u32); 2] = [(0, 0); 2];
+
+/// Recording replacement for catch `create_difficulty_objects`: notes (clock_rate, half_catcher_width).
+fn rec_create_difficulty_objects<'a, I: ExactSizeIterator<Item = &'a PalpableObject>>(
+    clock_rate: f64,
+    half_catcher_width: f32,
+    _palpable_objects: I,
+) -> Box<[CatchDifficultyObject]> {
+    unsafe {
+        if (CD_CALLS as usize) < 2 {
+            CD_ARGS[CD_CALLS as usize] = (clock_rate.to_bits(), half_catcher_width.to_bits());
+        }
+        CD_CALLS += 1;
+    }
+    Box::default()
+}
+
+//@ obl: id=U12.catch.convert_args harness=u12_catch_convert_args stubs=yes props=C02,C03 tier=quick kind=proof
 //@ fns: CatchGradualDifficulty::new, catch DifficultyValues::calculate (call sites of convert_objects)
-//@ bound: object-free catch map; all legacy mod bits, explicit hardrock_offsets setting present or absent (both values), CS override absent; convert_objects replaced by a recording stub
-//@ clause: the gradual constructor and the one-shot calculation call convert_objects with the same reflection, hardrock-offset flag and circle size, and the flag is the Difficulty's effective setting (explicit value, else the HR mod) - so both paths build the same object list
+//@ bound: object-free catch map; all legacy mod bits, explicit hardrock_offsets setting present or absent (both values), CS unset / 3.5 / 8.0; convert_objects and create_difficulty_objects replaced by recording stubs
+//@ clause: the gradual constructor and the one-shot calculation call convert_objects with the same reflection, hardrock-offset flag and circle size, and the flag is the Difficulty's effective setting (explicit value, else the HR mod); both call create_difficulty_objects with the same clock rate and (CS-adjusted) half catcher width - so both paths build the same object lists
 #[kani::proof]
 #[kani::unwind(4)]
 #[kani::stub(crate::catch::convert::convert_objects, rec_convert_objects)]
+#[kani::stub(DifficultyValues::create_difficulty_objects, rec_create_difficulty_objects)]
 #[kani::stub(<Movement as StrainSkill>::process, stub_process)]
 #[kani::stub(<Movement as StrainSkill>::cloned_difficulty_value, stub_value)]
 fn u12_catch_convert_args() {
@@ -360,6 +379,13 @@ fn u12_catch_convert_args() {
     let mut d = Difficulty::new().mods(bits);
     if kani::any() {
         d = d.hardrock_offsets(kani::any());
+    }
+    // circle sizes on both sides of 5.5 (above it the catcher width gets an extra adjustment)
+    let cs_choice: u8 = kani::any();
+    match cs_choice % 3 {
+        0 => {}
+        1 => d = d.cs(3.5, true),
+        _ => d = d.cs(8.0, true),
     }
     let expect_hr = d.get_hardrock_offsets();
     match CatchGradualDifficulty::new(d.clone(), &map) {
@@ -375,6 +401,7 @@ fn u12_catch_convert_args() {
         assert!(CO_CALLS == 2, "C02 each path converts the objects exactly once");
         assert!(CO_ARGS[0] == CO_ARGS[1], "C02 gradual and one-shot paths convert the objects with the same reflection, hardrock offsets and circle size");
         assert!(CO_ARGS[0].1 == expect_hr, "C02 the Difficulty's hardrock_offsets setting is honoured");
+        assert!(CD_CALLS == 2 && CD_ARGS[0] == CD_ARGS[1], "C02 gradual and one-shot paths build the difficulty objects with the same clock rate and catcher width");
     }
     std::mem::forget(map);
 }
